@@ -2,6 +2,7 @@ import AggkitModel.Model.Certificate
 import AggkitModel.Proofs.Bytes
 import AggkitModel.Properties.C02
 import AggkitModel.Generated.CertFacts
+import AggkitModel.Generated.SyncFacts
 /-
 C03 — a built certificate's new exit root follows from its bridge exits (byte level; the protocol-level half —
 which exits, which roots — is `C03_root` over the certificate machine, below).
@@ -144,5 +145,13 @@ theorem C03_root (s : Sys) (h : ChainOK s) (c : ACert) (hc : c ∈ s.agg) :
     independently computed root table by the harness; here: it is the value the model's `prev = 0` stands for) -/
 theorem C03_code_facts :
     Gen.CertFacts.emptyLER = "0x27ae5ba08d7291c96c8cbddcc148bf48a6d68c7974b94356f53754ef6171d757" := by decide
+
+/-- what "the certificate carries exactly the events of its block range" takes from the bridge store's read path
+    (regenerated from the source on every run): no store function walks a result set without asking whether the walk ended
+    on an error (a read that failed half way would otherwise pass for a complete, shorter answer), and the range reads of
+    bridges and claims run inside the transaction that checked that the range is processed (one snapshot) -/
+theorem C03_read_path_code_facts :
+    Gen.SyncFacts.rowLoopsWithoutErrCheck = [] ∧
+    Gen.SyncFacts.rangeQueryQuerier = ["GetBridges:tx", "GetClaims:tx"] := by decide
 
 end Aggkit.Aggsender
